@@ -19,26 +19,31 @@ CHECKS = {
             "DESIGN.md section 6, C20"),
     "C01": ("model_checking",
             "TLC evaluates the property formulas of spec/Trace_P.tla on every step of recorded executions of real replicas under an adversarial scheduler (trace validation, Pass A)",
-            "Agreement and chain shape are evaluated by TLC at every step of recorded executions of clusters of real replicas (n=4,7; three rulesets; Byzantine replicas scripted by an adversary that equivocates, forks, forges and replays); the abstract protocol model HotStuffAbs is exhausted by TLC for the same invariants.",
+            "Agreement and chain shape are evaluated by TLC at every step of recorded executions of clusters of real replicas (n=4,7; three rulesets; Byzantine replicas scripted by an adversary that equivocates, forks, forges and replays); TLC also exhausts, within small bounds, the abstract protocol model HotStuffAbs (negative control: without the lock Agreement is refuted) and MC_HotStuff, the implementation-shaped replica model composed with a lossy network and view timers."
+            " TLC-generated scripts (spec/generated/scripts.ndjson: behaviours of HotStuffAbs that violate Agreement when one rule is weakened, and behaviours of the correct model) are played against real replicas by a Byzantine leader (hsverif attack) and judged the same way. Pass B: every step of the runs without Byzantine action is also replayed through the deterministic replica model spec/HotStuff.tla (Trace_R.tla) -- post-state, signatures, commits, view changes and every message sent must be exactly what the model computes (drift is reported as a warning).",
             "Byzantine keys count as having signed everything; one scheduler step = one delivery run to quiescence.", "DESIGN.md section 6, C01"),
     "C03": ("model_checking",
             "TLC evaluates the property formulas of spec/Trace_P.tla on every step of recorded executions of real replicas under an adversarial scheduler (trace validation, Pass A)",
-            "Every call of a replica's signing primitive is recorded (ground truth); TLC checks at each vote that the block was proposed to the voter by the leader of its view, carries a QC backed by a quorum of real votes, directly extends the certified block, and that views voted/timed-out are strictly exceeded.",
+            "Every call of a replica's signing primitive is recorded (ground truth); TLC checks at each vote that the block was proposed to the voter by the leader of its view, carries a QC backed by a quorum of real votes, directly extends the certified block, and that views voted/timed-out are strictly exceeded. OneVotePerView / VoteOnce are model-checked on HotStuffAbs and MC_HotStuff."
+            " TLC-generated scripts (spec/generated/scripts.ndjson: behaviours of HotStuffAbs that violate Agreement when one rule is weakened, and behaviours of the correct model) are played against real replicas by a Byzantine leader (hsverif attack) and judged the same way. Pass B: every step of the runs without Byzantine action is also replayed through the deterministic replica model spec/HotStuff.tla (Trace_R.tla) -- post-state, signatures, commits, view changes and every message sent must be exactly what the model computes (drift is reported as a warning).",
             "Byzantine keys count as having signed everything; one scheduler step = one delivery run to quiescence.", "DESIGN.md section 6, C03"),
     "C05": ("model_checking",
             "TLC evaluates bounded progress (liveness as safety) and the fault-free shape on every step of recorded executions of real replicas: chaos prefix, then a synchronous suffix of a live quorum (spec/Trace_P.tla, P_C05)",
             "Real replicas run a chaos prefix (loss, duplication, reordering, timer firings, up to f crashed replicas), then a live quorum of honest replicas is scheduled "
             "synchronously (all messages among it before any of its timers, later views led by its members; round-robin, fixed and scripted leaders; n in {4,7}); TLC checks "
             "that every member has committed a new block once it is 3*(ChainLength+1) views beyond the heal, and in fault-free synchronous runs that nobody times out, every "
-            "view adds a block on the previous view's block and commits trail the proposal by exactly ChainLength. Fast-HotStuff fails (known finding, see DESIGN 7/D11).",
+            "view adds a block on the previous view's block and commits trail the proposal by exactly ChainLength. Fast-HotStuff fails (known finding, see DESIGN 7/D11). Scenario batches: a leader cut off in every other view of a stretch it leads that then falls silent; a lagging leader-to-be."
+            " Pass B: every step of the runs without Byzantine action is also replayed through the deterministic replica model spec/HotStuff.tla (Trace_R.tla) -- post-state, signatures, commits, view changes and every message sent must be exactly what the model computes (drift is reported as a warning).",
             "Commands are always available; the bound is measured on the stepping member's view.", "DESIGN.md section 6, C05"),
     "C06": ("model_checking",
             "TLC evaluates the property formulas of spec/Trace_P.tla on every step of recorded executions of real replicas under an adversarial scheduler (trace validation, Pass A)",
-            "Real ClientIO and CommandCache run in every replica with a waiting client registered for every command; TLC checks execute-event order against the committed chain, the exactly-once count, digest equality at equal counts across replicas, prefix-related executed sequences and at-most-one / success-implies-executed outcomes.",
+            "Real ClientIO and CommandCache run in every replica with a waiting client registered for every command; TLC checks execute-event order against the committed chain, the exactly-once count, digest equality at equal counts across replicas, prefix-related executed sequences and at-most-one / success-implies-executed outcomes."
+            " TLC-generated scripts (spec/generated/scripts.ndjson: behaviours of HotStuffAbs that violate Agreement when one rule is weakened, and behaviours of the correct model) are played against real replicas by a Byzantine leader (hsverif attack) and judged the same way. Pass B: every step of the runs without Byzantine action is also replayed through the deterministic replica model spec/HotStuff.tla (Trace_R.tla) -- post-state, signatures, commits, view changes and every message sent must be exactly what the model computes (drift is reported as a warning).",
             "Byzantine keys count as having signed everything; one scheduler step = one delivery run to quiescence.", "DESIGN.md section 6, C06"),
     "C07": ("model_checking",
             "TLC evaluates the property formulas of spec/Trace_P.tla on every step of recorded executions of real replicas under an adversarial scheduler (trace validation, Pass A)",
-            "TLC checks on every step of the recorded executions that view, high QC, high TC and committed view never decrease, that every view increment is signalled one view at a time, and that each increment is backed by a quorum of real vote signatures for a block of a view >= the old view or real timeout signatures for such a view (ground truth from the signing log).",
+            "TLC checks on every step of the recorded executions that view, high QC, high TC and committed view never decrease, that every view increment is signalled one view at a time, and that each increment is backed by a quorum of real vote signatures for a block of a view >= the old view or real timeout signatures for such a view (ground truth from the signing log)."
+            " TLC-generated scripts (spec/generated/scripts.ndjson: behaviours of HotStuffAbs that violate Agreement when one rule is weakened, and behaviours of the correct model) are played against real replicas by a Byzantine leader (hsverif attack) and judged the same way. Pass B: every step of the runs without Byzantine action is also replayed through the deterministic replica model spec/HotStuff.tla (Trace_R.tla) -- post-state, signatures, commits, view changes and every message sent must be exactly what the model computes (drift is reported as a warning).",
             "Byzantine keys count as having signed everything; one scheduler step = one delivery run to quiescence.", "DESIGN.md section 6, C07"),
     "C02": ("model_checking",
             "TLA+ Cert module (abstract signatures = who really signed what; Verify*/BatchVerify* as coded, Sound* = the property) model-checked by TLC; TLC line-check of verdicts of the real cert.Authority on crafted certificates",
